@@ -55,6 +55,7 @@ type Op struct {
 	URRs   []uint32 `json:"rep_urrs,omitempty"`
 	Answer string   `json:"answer,omitempty"` // accept seid0 ignore
 	PDR    uint16   `json:"pdr,omitempty"`
+	Period uint32   `json:"tick_period,omitempty"` // tick: the measurement period (seconds) whose ticker fires
 	Act    uint16   `json:"act,omitempty"`
 	PayLen int      `json:"paylen,omitempty"`
 }
@@ -227,6 +228,8 @@ type GenProfile struct {
 	// Churn: now and then several sessions are deleted in a row, then as many established, then each new one is
 	// modified (several SEIDs are free at once when the allocator is asked again)
 	Churn bool
+	// Ticks: periodic ticks ("tick" steps; they only act in runs on the real driver, where the real periodic server runs)
+	Ticks bool
 }
 
 type genSess struct {
@@ -416,6 +419,10 @@ func Generate(r *Rng, p GenProfile) *History {
 			pendingTx = false
 		}
 		live := g.liveSessions()
+		if p.Ticks && len(live) > 0 && r.Chance(1, 7) {
+			add(Op{K: "tick", Node: 0, NodeID: -1, Sess: -1, Period: []uint32{3600, 7200, 10800}[r.Intn(3)]})
+			continue
+		}
 		w := []int{
 			2,           // 0 hb
 			p.Reassoc,   // 1 assoc
@@ -535,6 +542,10 @@ func Generate(r *Rng, p GenProfile) *History {
 					s.node = nodes
 					s.taken = true
 				}
+			}
+			if p.Takeover && o.Takeover == 0 && !s.taken && s.node < nodes && r.Chance(1, 8) {
+				// the optional Node ID IE names the node the session already belongs to: nothing moves
+				o.Takeover = s.node + 1
 			}
 			if p.ExtraSock && r.Chance(1, 6) {
 				o.Sock = 1
